@@ -559,6 +559,15 @@ def _case_hist(case, ctx, pym):
                 x[:] = x[0]
             elif style == 2 and n > 1:
                 x[rng.permutation(n)[: max(1, n // 2)]] = x.max() if rng.random() < 0.5 else x.min()
+            if k > 0 and rng.random() < 0.5:
+                # what an optimiser does between two responses: back-propagate and reset() - the recurrence is over the
+                # response() calls and must not restart
+                if rng.random() < 0.5:
+                    m.sig_out[0].sensitivity = 1.0
+                    m.sensitivity()
+                m.reset()
+                twin.reset()
+                ctx.count("resets_between_responses")
             sx.state = x
             if akw is not None:
                 if not _run_mask(pym, rec, _XInfo(x), _cfg_of(akw), counts):
